@@ -8,7 +8,7 @@ Extraction "model_fdl.ml"
   Fdl.is_in_ring Fdl.kind_of Fdl.have_token Fdl.unit_app_ops Fdl.next_gap_poll Fdl.in_gapb
   TokenRing.las_ones TokenRing.ready_for_ring
   Telegram.decode Telegram.encode_data_in Telegram.encode Telegram.tx_expects_reply
-  StdRates.rates_standard_ok
+  StdRates.rates_standard_ok StdRates.expects_reply_standard_ok
   FdlOracle.monitor FdlOracle.rule_prop FdlOracle.mon_poll FdlOracle.delivered
   Tables.req_from_byte Tables.resp_state_from_byte Tables.resp_status_from_byte
   Tables.req_to_byte Tables.resp_state_to_byte Tables.resp_status_to_byte
